@@ -46,6 +46,20 @@ func raceBodiesMain(args []string) int {
 				}
 			}
 		}
+		for _, relaxed := range []bool{false, true} {
+			a := schedArg{Scenario: "commit", Hist: 1, Relaxed: relaxed, Workers: 3, Variant: 2}
+			body, baseline, err := commitScenario(a)
+			if err != nil {
+				fmt.Println("HARNESS", err)
+				return 2
+			}
+			prepareHook()
+			if got := body(); got != baseline {
+				fmt.Printf("MISMATCH free-running %+v:\n got  %s\n want %s\n", a, trunc(got), trunc(baseline))
+				return 1
+			}
+			n++
+		}
 		for _, wk := range []int{2, 4} {
 			body, baseline, err := preloadScenario(schedArg{Scenario: "preload", Workers: wk})
 			if err != nil {
